@@ -19,6 +19,19 @@ import numpy as np
 
 from pySDC.core.errors import ConvergenceError
 from pySDC.helpers.pysdc_helper import FrozenClass
+
+# ground truth for "declared": every (class, name) pair that `add_attr` was actually called with in this process,
+# recorded independently of the list the library keeps (class -> set of names)
+_DECLARED = {}
+_orig_add_attr = FrozenClass.add_attr.__func__
+
+
+def _recording_add_attr(cls, key, *a, **kw):
+    _DECLARED.setdefault(cls, set()).add(key)
+    return _orig_add_attr(cls, key, *a, **kw)
+
+
+FrozenClass.add_attr = classmethod(_recording_add_attr)
 from pySDC.implementations.controller_classes.controller_nonMPI import controller_nonMPI
 from pySDC.implementations.controller_classes.controller_ParaDiag_nonMPI import controller_ParaDiag_nonMPI
 from pySDC.implementations.problem_classes.TestEquation_0D import testequation0d, test_equation_IMEX
@@ -406,6 +419,24 @@ def _fault_case(arg):
                 object.__delattr__(o, 'zz_undeclared_attribute')
             except Exception:  # noqa: BLE001
                 pass
+        # names that are declared for OTHER frozen classes (set at construction or added later through add_attr) are
+        # undeclared for this one unless it declares them itself
+        mine = set(vars(o)) | set().union(*[_DECLARED.get(c, set()) for c in type(o).__mro__])
+        foreign = (set().union(*_DECLARED.values()) if _DECLARED else set()) | {k for _, other in frozen for k in vars(other) if not k.startswith('_')}
+        for k in sorted(foreign - mine):
+            if hasattr(type(o), k):
+                continue
+            res['foreign_probes'] = res.get('foreign_probes', 0) + 1
+            try:
+                setattr(o, k, None)
+            except Exception:  # noqa: BLE001
+                continue
+            res['violations'].append(({'part': 'frozen', 'base': name, 'kind': 'attribute_declared_for_another_class_accepted', 'class': f'{type(o).__module__}.{type(o).__name__}', 'attribute': k}, {'path': path, 'declared_for': sorted(f'{c.__module__}.{c.__name__}' for c, ks in _DECLARED.items() if k in ks), 'expected': 'TypeError', 'observed': 'attribute was created'}))
+            try:
+                object.__delattr__(o, k)
+            except Exception:  # noqa: BLE001
+                pass
+            break
         declared = [k for k in vars(o) if not k.startswith('_')] + list(getattr(type(o), 'attrs', []))
         for k in declared:
             try:
@@ -579,13 +610,14 @@ def run(rep, tier):
     r.shuffle(cases)
     fres = common.pmap(fault_case, cases, chunksize=4)
     rejected = collections.Counter()
-    nfrozen = nro = 0
+    nfrozen = nro = nforeign = 0
     fclasses = set()
     fv = []
     for res in fres:
         if res['fault'] is not None and res['rejected_with']:
             rejected[res['rejected_with']] += 1
         nfrozen += res.get('frozen', 0)
+        nforeign += res.get('foreign_probes', 0)
         nro += res.get('readonly', 0)
         fclasses |= set(res.get('frozen_classes', []))
         for sig, det in res['violations']:
@@ -634,6 +666,7 @@ def run(rep, tier):
                 'valid_bases': len(BASES),
                 'rejected_with': dict(rejected),
                 'frozen_objects_probed': nfrozen,
+                'attributes_of_other_frozen_classes_probed': nforeign,
                 'frozen_classes': sorted(fclasses),
                 'readonly_parameters_probed': nro,
                 'controller_subsets': nC,
